@@ -1,4 +1,5 @@
-"""Independent seeded sessions on the real library with object identities: create, move (receiver kept), deep copy, query
+"""Independent seeded sessions on the real library with object identities: create, move (receiver kept), derive (-polygon, kept
+return value of move), deep copy, query
 (intersection / in / distance / ==) and a final snapshot of every object.  The events are validated by TLC through the actions of
 the Session state machine (spec/G3DSessionTrace.tla)."""
 import copy
@@ -72,11 +73,24 @@ def session(rng):
         ev.append({"ev": "create", "obj": a})
     if len(objs) < 2:
         return None
+    derived = 0
     for _ in range(rng.randint(3, 9)):
         i, j = rng.randrange(len(objs)), rng.randrange(len(objs))
         r = rng.random()
         try:
-            if r < 0.3:
+            if r < 0.12 and derived < 2 and len(objs) < 7 and kinds[i] in ("Polygon", "Point", "Segment", "HalfLine", "Polyhedron"):
+                # a new live object derived from a live one: -polygon, or the kept return value of move (owning kinds only)
+                derived += 1
+                if kinds[i] == "Polygon" and rng.random() < 0.5:
+                    new = -objs[i]
+                    ev.append({"ev": "neg", "id": i + 1, "obj": abstract(new, False)})
+                else:
+                    d = [rng.randint(-1, 1), rng.randint(-1, 1), rng.randint(-1, 1)]
+                    new = objs[i].move(Vector(*[float(x) for x in d]))
+                    ev.append({"ev": "movekeep", "id": i + 1, "v": [x * recorder.SCALE for x in d], "post": abstract(objs[i], False), "ret": abstract(new, False)})
+                objs.append(new)
+                kinds.append(kinds[i])
+            elif r < 0.3:
                 d = [rng.randint(-1, 1), rng.randint(-1, 1), rng.randint(-1, 1)]
                 ret = objs[i].move(Vector(*[float(x) for x in d]))
                 ev.append({"ev": "move", "id": i + 1, "v": [x * recorder.SCALE for x in d], "post": abstract(objs[i], False), "ret": abstract(ret, False)})
